@@ -165,12 +165,12 @@ def callFn (c : Ctx) (env : Env) (name : Str) (vs : List Val) (w : World) : Opti
     match vs with
     | [.str p] =>
       let w1 := { w with effects := w.effects ++ [.remove p] }
-      match w.fs p with
-      | .absent => some ([.err (some .notExist)], w1)
-      | _ =>
-        match c.faults.remove with
-        | some e => some ([.err (some e)], w1)
-        | none => some ([.err none], { w1 with fs := setNode w.fs p .absent })
+      match c.faults.remove with
+      | some e => some ([.err (some e)], w1)     -- e.g. ENOTDIR, EPERM, ENOTEMPTY – whatever is there
+      | none =>
+        match w.fs p with
+        | .absent => some ([.err (some .notExist)], w1)
+        | _ => some ([.err none], { w1 with fs := setNode w.fs p .absent })
     | _ => none
   else if name = s%"os.MkdirAll" then
     match vs with
